@@ -167,7 +167,7 @@ BOUNDS_Q = [(1, 1), (0, INF), (1, INF), (2, 2)]
 BOUNDS_T = BOUNDS_Q + [(1, 2), (0, 1)]
 
 
-def seq_configs(g, n, bounds, with_monitors=False, any_matchers=True, reduce_symmetry=True):
+def seq_configs(g, n, bounds, with_monitors=False, any_matchers=True, reduce_symmetry=True, masks=(0, 1, 2, 3)):
     """All assignments of n expectations (slot i, matcher eq(i) or _, on obj0.f) to subsets of 2 sequences with bounds."""
     sh = {}
     for mk in ('EQ', 'ANY'):
@@ -175,7 +175,7 @@ def seq_configs(g, n, bounds, with_monitors=False, any_matchers=True, reduce_sym
             sh[(mk, ar)] = g.shape(fn=F1, mk1=mk, seqar=ar, tform='RT')
     msh = {ar: g.shape(mock='W', seqar=ar) for ar in (0, 1, 2)} if with_monitors else {}
     per = []
-    for mask in (0, 1, 2, 3):
+    for mask in masks:
         for b in bounds:
             for mk in (('EQ', 'ANY') if any_matchers else ('EQ',)):
                 per.append(('E', mask, b, mk))
@@ -221,6 +221,9 @@ def plans_C05(g, tier):
         malpha = alpha + [g.op(OP_DELETE_WATCHED, obj=w) for w in range(3)]
         plans.append(dict(name='seq3mon', mask=mask, du=0, dm=6, alphabet=malpha,
                           prefixes=[p for p in seq_configs(g, 3, BOUNDS_Q, with_monitors=True, any_matchers=False) if any(o[0] == OP_MONITOR for o in p)]))
+        # four expectations: one or two sequences, every assignment, required / optional / two-call bounds
+        alpha4 = [g.call(0, F1, a) for a in range(4)] + [g.release(i) for i in range(4)]
+        plans.append(dict(name='seq4', mask=mask, du=0, dm=6, alphabet=alpha4, prefixes=seq_configs(g, 4, [(1, 1), (0, INF), (2, 2)], any_matchers=False)))
     return plans
 
 
